@@ -319,11 +319,11 @@ pub fn run_case(ctx: &Ctx, case: &Value, tag: usize, rep: &mut Report, _mb: &mut
             let both_err = a.starts_with("err") && b.starts_with("err");
             if both_err && a != b { rep.count("profile.error_class_differs"); }
             if a != b && !both_err && a != "ABNORMAL" && b != "ABNORMAL" && a != "MISSING" && b != "MISSING" {
-                rep.fail("oracle", "c20:profile-divergence", format!("release and overflow-checked builds disagree (a result after an internal overflow?): release `{}` vs checked `{}`", &a[..a.len().min(200)], &b[..b.len().min(200)]), one.clone());
+                rep.fail("oracle", "c20:profile-divergence", format!("release and overflow-checked builds disagree (a result after an internal overflow?): release `{}` vs checked `{}`", crate::trunc_at(a, 200), crate::trunc_at(b, 200)), one.clone());
             }
         }
         if a.starts_with("built") { rep.nontrivial(format!("{kind}|{}", input["data"].as_str().unwrap_or(""))); }
         if a.starts_with("err") { rep.nontrivial(format!("{kind}|{}", input["data"].as_str().unwrap_or(""))); }
     }
-    rep.sample(json!({"first_input": {"kind": inputs[0]["kind"], "data_prefix": &inputs[0]["data"].as_str().unwrap_or("")[..inputs[0]["data"].as_str().unwrap_or("").len().min(60)]}, "first_result": &results[0][0][..results[0][0].len().min(120)]}));
+    rep.sample(json!({"first_input": {"kind": inputs[0]["kind"], "data_prefix": &inputs[0]["data"].as_str().unwrap_or("")[..inputs[0]["data"].as_str().unwrap_or("").len().min(60)]}, "first_result": crate::trunc_at(&results[0][0], 120)}));
 }
